@@ -1,8 +1,10 @@
 package eb
 
 import (
+	"bytes"
 	"encoding/json"
 	"fmt"
+	"github.com/openebs/jiva/sync/agent"
 	"io"
 	"net/http"
 	"net/http/httptest"
@@ -33,20 +35,20 @@ const ctlHost = "10.0.0.100"
 
 // task is one replica-side procedure under step control.
 type task struct {
-	kind    string
-	node    int
-	release chan struct{}
-	report  chan string
-	running bool // the task goroutine owns the CPU (the harness goroutine waits)
-	done    bool
-	err     error
-	gates   int
-	last    string
-	killed  bool
+	kind     string
+	node     int
+	release  chan struct{}
+	report   chan string
+	running  bool // the task goroutine owns the CPU (the harness goroutine waits)
+	done     bool
+	err      error
+	gates    int
+	last     string
+	killed   bool
 	panicked string
 	depth    int32
 	goid     int64 // the goroutine that runs the task: only its own requests are gates
-	gateAll  bool // also gate GETs to replicas (the controller-side poll loop of a clone start)
+	gateAll  bool  // also gate GETs to replicas (the controller-side poll loop of a clone start)
 }
 
 type agentProc struct {
@@ -162,6 +164,10 @@ func (cl *cluster) serveAgent(n int, w http.ResponseWriter, req *http.Request) {
 		json.NewEncoder(w).Encode(map[string]interface{}{"id": fmt.Sprint(p.id), "type": "process", "links": map[string]string{"self": self},
 			"processType": "sync", "srcFile": p.srcFile, "destfile": p.destFile, "port": p.port, "exitCode": p.exit, "output": ""})
 	}
+	if req.Method == "GET" && strings.Contains(req.URL.Path, "/v1/processes/r") {
+		cl.serveRealAgent(n, w, "GET", strings.Replace(req.URL.Path, "/v1/processes/r", "/v1/processes/", 1), nil)
+		return
+	}
 	if req.Method == "GET" {
 		var id int
 		fmt.Sscanf(filepath.Base(req.URL.Path), "%d", &id)
@@ -223,6 +229,15 @@ func (cl *cluster) serveAgent(n int, w http.ResponseWriter, req *http.Request) {
 			p.exit = 0
 			cl.cnt["files_synced"]++
 		}
+	case in.ProcessType == "fold" && os.Getenv("VERIF_EB_STANDIN_FOLD") == "":
+		// coalesce requests go to jiva's REAL sync agent (sync/agent: process table, reexec of the sfold child, exit
+		// code bookkeeping); the child is this binary re-executed as "sfold" (the real sparse-tools command line).
+		// File names are made absolute because a production agent runs with the replica directory as its working
+		// directory and several nodes share this process.
+		cl.procs = cl.procs[:len(cl.procs)-1]
+		cl.serveRealAgent(n, w, req.Method, req.URL.Path, map[string]interface{}{"processType": "fold",
+			"srcFile": filepath.Join(cl.nodes[n].(*RealNode).dir, in.SrcFile), "destfile": filepath.Join(cl.nodes[n].(*RealNode).dir, in.DestFile)})
+		return
 	case in.ProcessType == "fold" && cl.failFold:
 		p.exit = 1 // sfold exits non-zero (disk full, I/O error)
 	case in.ProcessType == "fold":
@@ -237,6 +252,51 @@ func (cl *cluster) serveAgent(n int, w http.ResponseWriter, req *http.Request) {
 		p.exit = 1
 	}
 	write(p)
+}
+
+// serveRealAgent hands a request to the real sync-agent router of node n and rewrites the process id / self link so
+// that the polling GETs of the replica client come back here ("r<id>").
+func (cl *cluster) serveRealAgent(n int, w http.ResponseWriter, method, path string, body map[string]interface{}) {
+	if cl.agents == nil {
+		cl.agents = map[int]http.Handler{}
+	}
+	h := cl.agents[n]
+	if h == nil {
+		h = agent.NewRouter(agent.NewServer(9700+100*n, 9799+100*n))
+		cl.agents[n] = h
+	}
+	var rd io.Reader
+	if body != nil {
+		b, _ := json.Marshal(body)
+		rd = bytes.NewReader(b)
+	}
+	fault := ""
+	switch {
+	case cl.killFold:
+		fault = "kill"
+	case cl.failFold:
+		fault = "exit1"
+	}
+	if method == "POST" {
+		os.Setenv("VERIF_SFOLD_FAULT", fault) // inherited by the child the agent starts for this request
+		cl.cnt["real_agent_folds"]++
+	}
+	req := httptest.NewRequest(method, "http://"+ip(n)+":9504"+path, rd)
+	if body != nil {
+		req.Header.Set("Content-Type", "application/json")
+	}
+	rec := httptest.NewRecorder()
+	h.ServeHTTP(rec, req)
+	out := rec.Body.Bytes()
+	var m map[string]interface{}
+	if json.Unmarshal(out, &m) == nil && m["id"] != nil {
+		id := fmt.Sprint(m["id"])
+		m["id"] = "r" + id
+		m["links"] = map[string]string{"self": fmt.Sprintf("http://%s:9504/v1/processes/r%s", ip(n), id)}
+		out, _ = json.Marshal(m)
+	}
+	w.WriteHeader(rec.Code)
+	w.Write(out)
 }
 
 type foldStub struct{}
